@@ -39,12 +39,21 @@ Definition collect (ls : list string) : list (string * list string) :=
 Definition emplace (replace : bool) (tg : list (string * list string)) (ls : list string) :=
   emplace_lines String.eqb kof sub_of kpfx replace tg ls.
 
-(* path : the path the old file was collected from (join(outdir, name)), as spelled by the caller *)
+(* os.path.basename: the text after the last '/' *)
+Fixpoint basename_aux (s cur : string) : string :=
+  match s with
+  | EmptyString => cur
+  | String c r => if Ascii.eqb c (chr 47) then basename_aux r EmptyString else basename_aux r (cur ++ String c EmptyString)
+  end.
+Definition basename (p : string) : string := basename_aux p EmptyString.
+
+(* path : the path the old file was collected from (join(outdir, name)), as spelled by the caller; LostCode entries are
+   labelled with its basename only *)
 Definition preserve1 (path : string) (fresh old : list string) : list string * list string :=
-  preserve_one String.eqb is_tag kof sub_of kpfx nl nl (nl path) (nl lost_sep) "" fresh old.
+  preserve_one String.eqb is_tag kof sub_of kpfx nl nl (nl (basename path)) (nl lost_sep) "" fresh old.
 
 Definition regen1 (path : string) (fresh old : list string) : list string * list string :=
-  regen_one String.eqb tab4 is_tag kof sub_of kpfx nl nl (nl path) (nl lost_sep) "" fresh old.
+  regen_one String.eqb tab4 is_tag kof sub_of kpfx nl nl (nl (basename path)) (nl lost_sep) "" fresh old.
 
 (* ---------------------------------------------------------------- whole code model *)
 Inductive old_state := Missing | Unreadable | Readable (content : string).
@@ -57,12 +66,19 @@ Fixpoint remove_key (k : string) (m : cmodel) : cmodel :=
   | (k', v) :: r => if String.eqb k k' then r else (k', v) :: remove_key k r
   end.
 
-(* os.path.join(outdir, name) for a relative name *)
+Fixpoint last_is (c : ascii) (s : string) : bool :=
+  match s with
+  | EmptyString => false
+  | String x EmptyString => Ascii.eqb x c
+  | String _ r => last_is c r
+  end.
+
+(* os.path.join(outdir, name) *)
 Definition join (outdir name : string) : string :=
   match outdir with
   | EmptyString => name
   | _ => if prefixb "/" name then name
-         else if String.eqb (substring (String.length outdir - 1) 1 outdir) "/" then outdir ++ name
+         else if last_is (chr 47) outdir then outdir ++ name
          else outdir ++ "/" ++ name
   end.
 
